@@ -5,6 +5,9 @@ package checks
 // Stop points are enumerated (fault_enumeration) over the states a queue can be
 // in: idle, backing off after a failure (stop right after the failure, between
 // two wait ticks, exactly on a wait tick, exactly on the tick the delay expires),
+// idle with a task that arrived since the last poll (stop at the instant of the
+// polling tick, and stop requested from inside the tick, i.e. right after the
+// worker's select chose the ticker),
 // handler in flight (parked by the harness) with tasks behind it; several queues
 // in different states at once; stop through Shutdown(), TaskQueues.Stop() and
 // ShellOperator.Stop(); events and ticks arriving after the stop; stop while an
@@ -61,6 +64,11 @@ func TestC17(t *testing.T) {
 				cat = append(cat, c17case{BackoffStop: bo, InFlight: inf, How: how})
 			}
 		}
+		for _, bo := range []string{"idle-on-tick", "idle-in-tick"} {
+			for _, inf := range []int{-1, 1} {
+				cat = append(cat, c17case{BackoffStop: bo, InFlight: inf, How: how})
+			}
+		}
 		cat = append(cat, c17case{BackoffStop: "none", InFlight: -1, How: how, InformerPoll: true})
 		cat = append(cat, c17case{BackoffStop: "at-expiry", InFlight: 1, How: how, InformerPoll: true})
 	}
@@ -87,7 +95,7 @@ func c17run(c *vlib.Case, cs c17case, res *vlib.Result) {
 
 	var log []vlib.PointEvent
 	var stopBegin, stopEnd int64
-	var parkedTaskExitSeq int64
+	var parkedTaskExitSeq, inTickStopSeq int64
 	var statuses map[string]string
 	execsBefore, execsAfter := 0, 0
 	var trace []string
@@ -129,8 +137,51 @@ func c17run(c *vlib.Case, cs c17case, res *vlib.Result) {
 			}
 			logf("handler of h-slow parked inside its handler with %d tasks behind it", cs.InFlight)
 		}
-		// backing-off queue
-		if cs.BackoffStop != "none" {
+		// idle queue with a task that arrived since its last poll; stop on the polling tick
+		if strings.HasPrefix(cs.BackoffStop, "idle-") {
+			lastTick := func() time.Time {
+				var lt time.Time
+				for _, ev := range sys.Pts.Log() {
+					if ev.Name == "q.wait.tick" && ev.Args[0].(string) == "qi" {
+						lt = ev.VT
+					}
+				}
+				return lt
+			}
+			sys.Advance(600 * time.Millisecond)
+			lt := lastTick()
+			if lt.IsZero() {
+				res.Inconclusive = "idle queue qi never polled"
+				return
+			}
+			// between two polls: the tick's task lands in qi unnoticed
+			time.Sleep(time.Until(lt.Add(60 * time.Millisecond)))
+			synctest.Wait()
+			tick(sys, c17cronIdle)
+			synctest.Wait()
+			if n := len(sys.QueueTasks("qi")); n != 1 {
+				res.Inconclusive = fmt.Sprintf("expected one pending task in idle queue qi, found %d", n)
+				return
+			}
+			k := 1 + cs.Rep%2 // the next polling tick or the one after
+			at := lt.Add(time.Duration(k) * 125 * time.Millisecond)
+			if cs.BackoffStop == "idle-in-tick" {
+				sys.Pts.On("q.wait.tick", func(ev vlib.PointEvent) {
+					if ev.Args[0].(string) == "qi" && inTickStopSeq == 0 && !ev.VT.Before(at) {
+						// the stop request lands right after the worker's select chose the ticker
+						sys.Op.TaskQueues.Stop()
+						inTickStopSeq = sys.Pts.NextSeq()
+					}
+				})
+				time.Sleep(time.Until(at.Add(time.Millisecond)))
+				synctest.Wait()
+				logf("idle queue qi holds one task; stop requested from inside its poll tick at +%dx125ms (seq %d)", k, inTickStopSeq)
+			} else {
+				// harness and worker wake at the same instant; their order is up to the scheduler
+				time.Sleep(time.Until(at))
+				logf("idle queue qi holds one task; stop requested at the instant of its poll tick +%dx125ms", k)
+			}
+		} else if cs.BackoffStop != "none" {
 			tick(sys, c17cronFail)
 			// wait for the first failure
 			var failExit time.Time
@@ -230,6 +281,9 @@ func c17run(c *vlib.Case, cs c17case, res *vlib.Result) {
 		case "q.handler.enter":
 			if sawDone[q] {
 				res.Violate("task-started-after-worker-saw-stop/"+cs.BackoffStop, "queue %s entered a handler (seq %d) after its worker had observed the cancelled context in the wait loop\n%s", q, ev.Seq, desc())
+			}
+			if inTickStopSeq != 0 && q == "qi" && ev.Seq > inTickStopSeq {
+				res.Violate("task-started-after-stop-inside-poll-tick", "idle queue qi entered a handler (seq %d) although the stop was requested (seq %d) inside its polling tick, before it had picked the task\n%s", ev.Seq, inTickStopSeq, desc())
 			}
 			if ev.Seq > stopEnd {
 				entersAfterStop[q]++
